@@ -657,6 +657,42 @@ def _space_r(out, tier, seed, TaskBuilder, JobBuilder, JobInstance, default_outp
 
 
 # ------------------------------------------------------------------------------------------------ sub-space D
+def _space_t(out, tier, TaskBuilder, JobBuilder, JobInstance):
+    """declared types in a subtype relation: a keyword edge from a source declared `-> T1` into a parameter declared `x: T2`, both builtin classes.
+    Compatible = a value of the declared output type is a value of the declared parameter type (T1 is T2 or a subclass of it): must be accepted;
+    anything else (unrelated types, or the parameter's type NARROWER than the output's) must be answered with the problem list.  No raise either way."""
+    import builtins
+    t0 = time.time()
+    F = _Failures()
+    cases = 0
+    tys = ["bool", "int", "float", "complex", "str", "bytes", "object", "list", "dict", "BaseException", "ValueError"]
+    for t1, t2 in itertools.product(tys, repeat=2):
+        for kwo in (False, True):
+            cases += 1
+            ns1, ns2 = {"__name__": "c19_dynamic"}, {"__name__": "c19_dynamic"}
+            exec(f"def f() -> {t1}:\n    return None\n", ns1)
+            exec(f"def f({'*, ' if kwo else ''}x: {t2}):\n    return None\n", ns2)
+            inputs = {"source": f"def f() -> {t1}", "sink": f"def f({'*, ' if kwo else ''}x: {t2})", "edge": "n0 -> n1.x (keyword)"}
+            try:
+                b = JobBuilder().with_node("n0", TaskBuilder.from_callable(ns1["f"])).with_node("n1", TaskBuilder.from_callable(ns2["f"]))
+                b = b.with_edge("n0", "n1", "x")
+            except Exception as e:  # noqa: BLE001
+                F.add("C19/T/never-raises", inputs, f"describing the job raised {type(e).__name__}: {e}", CLAUSE_EDGES)
+                continue
+            tag, payload = _build(b, JobInstance)
+            compatible = issubclass(getattr(builtins, t1), getattr(builtins, t2))
+            if tag in ("raise", "shape"):
+                F.add("C19/T/never-raises", inputs, f"build(): {tag} {payload!r:.200}", CLAUSE_EDGES)
+            elif compatible and tag != "ok":
+                F.add("C19/T/compatible-edge-accepted", inputs, f"{t1} is {'' if t1 == t2 else 'a subclass of '}{t2}, yet build() answered {payload!r:.200}", CLAUSE_EDGES)
+            elif not compatible and tag == "ok":
+                F.add("C19/T/ill-formed-edge-rejected", inputs, f"ok(job) although the parameter is declared {t2} and the source is declared to produce {t1}, which is not a {t2}", CLAUSE_EDGES)
+    out.add_bounded("C19-T declared types of keyword edges", "exhaustive enumeration",
+                    f"every ordered pair of {len(tys)} builtin classes ({', '.join(tys)}) as declared return type of the source and declared type of the sink's parameter, "
+                    "positional-or-keyword and keyword-only parameter, one keyword edge, real from_callable / with_node / with_edge / build", cases, cases, time.time() - t0,
+                    [{"source": "def f() -> bool", "sink": "def f(x: int)", "verdict expected": "ok"}], F.items)
+
+
 def _space_d(out, tier, TaskBuilder, JobBuilder, JobInstance):
     t0 = time.time()
     F = _Failures()
@@ -733,5 +769,6 @@ def run(out, tier, seed):
     _space_a(out, tier, TaskBuilder, JobBuilder, JobInstance, default_output)
     _space_b(out, tier, TaskBuilder, JobBuilder, JobInstance)
     _space_d(out, tier, TaskBuilder, JobBuilder, JobInstance)
+    _space_t(out, tier, TaskBuilder, JobBuilder, JobInstance)
     _space_c(out, tier, TaskBuilder, JobBuilder, JobInstance, default_output, start + (40 if quick else 600))
     _space_r(out, tier, seed, TaskBuilder, JobBuilder, JobInstance, default_output, start + (52 if quick else 780))
